@@ -251,7 +251,7 @@ class Interp:
                 return v
         if "promoted[" in text and ("STUFF" in self.consts):
             # the only promoted slices in these bodies are &STUFF_SEQUENCE and &[0u8] / &[0u8, 0u8]
-            return self.promoted(text)
+            return self.promoted(text, st)
         raise Unsupported("const " + text)
 
     def named_const(self, name):
@@ -279,11 +279,21 @@ class Interp:
 
     const_cache = {}
 
-    def promoted(self, text):
+    def promoted(self, text, st=None):
         """Evaluates a promoted constant by interpreting its own MIR body."""
         lines = self.m.text.split("\n")
         start = None
+        idx = re.search(r"promoted\[(\d+)\]", text).group(1)
+        if st is not None and st.frames:
+            # exact: the promoted constant of the function being executed
+            want = "const %s::promoted[%s]: " % (st.frames[-1]["body"].name, idx)
+            for i, line in enumerate(lines):
+                if line.startswith(want):
+                    start = i
+                    break
         for i, line in enumerate(lines):
+            if start is not None:
+                break
             if line.startswith("const ") and "promoted[" in line and self._same_promoted(line, text):
                 start = i
                 break
@@ -309,9 +319,9 @@ class Interp:
 
     def _same_promoted(self, line, text):
         # line: `const encoder::<impl at ...>::new::promoted[0]: &[u8; 1] = {`; text: `encoder::EncoderState::new::promoted[0]` (+generics)
-        m1 = re.search(r"::(\w+)(?:::<[^>]*>)?::promoted\[(\d+)\]", line)
+        m1 = re.search(r"(?:::|^const )(\w+)(?:::<[^>]*>)?::promoted\[(\d+)\]", line)
         t = re.sub(r"::<.*>::promoted", "::promoted", text)
-        m2 = re.search(r"::(\w+)::promoted\[(\d+)\]", t)
+        m2 = re.search(r"(?:::|^)(\w+)::promoted\[(\d+)\]", t)
         return bool(m1 and m2 and m1.group(1) == m2.group(1) and m1.group(2) == m2.group(2))
 
     def load(self, st, key):
@@ -791,7 +801,7 @@ class Interp:
             opts = [("(= %s %s)" % (sym.term, bvconst(k, w)), k) for k in range(conc)]
             opts.append(("(bvuge %s %s)" % (sym.term, bvconst(conc, w)), conc))
             return self.fork_values(st, dst, nxt, opts)
-        if c == "find_stuff_sequence" or c.endswith("::find_stuff_sequence"):
+        if (c == "find_stuff_sequence" or c.endswith("::find_stuff_sequence")) and not getattr(self, "real_fss", False):
             sl = self.as_slice(st, args[0])
             opts = []
             prev = []
@@ -962,6 +972,39 @@ class Interp:
         if re.search(r"OwningIovec::(<'_>::)?arena$", c):
             self.ret(st, dst, Adt("ArenaHandle", {}), nxt)
             return None
+        # ---- find_stuff_sequence's own body: windows(2).enumerate() and the array comparison
+        if re.match(r"^core::slice::<impl \[u8\]>::windows$", c):
+            sl = self.as_slice(st, args[0])
+            self.ret(st, dst, Adt("Windows", {"items": sl, "size": args[1], "pos": 0}), nxt)
+            return None
+        if re.match(r"^<Windows<'_, u8> as Iterator>::enumerate$", c) or re.match(r"^<Enumerate<Windows<'_, u8>> as IntoIterator>::into_iter$", c):
+            self.ret(st, dst, args[0], nxt)
+            return None
+        if re.match(r"^<Enumerate<Windows<'_, u8>> as Iterator>::next$", c):
+            ref = args[0]
+            w = self.val(st, ref)
+            items, size, pos = w.get("items"), w.get("size"), w.get("pos")
+            if pos + size > len(items.elems):
+                self.ret(st, dst, Adt("None", []), nxt)
+            else:
+                self.write_at(st, ref.key, list(ref.proj), w.with_field("pos", pos + 1))
+                self.ret(st, dst, Adt("Some", [Adt("tuple", [pos, Slice(items.elems[pos:pos + size], items.tag)])]), nxt)
+            return None
+        if re.match(r"^<&\[u8\] as PartialEq<\[u8; \d+\]>>::eq$", c):
+            a, b = self.as_slice(st, self.val(st, args[0])), self.as_slice(st, self.val(st, args[1]))
+            if len(a.elems) != len(b.elems):
+                self.ret(st, dst, False, nxt)
+                return None
+            conds = []
+            for x, y in zip(a.elems, b.elems):
+                if isinstance(x, int) and isinstance(y, int):
+                    if x != y:
+                        self.ret(st, dst, False, nxt)
+                        return None
+                    continue
+                conds.append("(= %s %s)" % (self.term(x, 8), self.term(y, 8)))
+            self.ret(st, dst, True if not conds else SymB(conj_all(conds)), nxt)
+            return None
         if re.search(r"OwningIovec::(<'_>::)?stable_prefix$", c):
             v = self.val(st, args[0])
             self.ret(st, dst, v.get("stable"), nxt)
@@ -1123,6 +1166,11 @@ class Interp:
 
     def resolve(self, callee, args):
         """MIR body for calls into the hcobs encoder/decoder modules."""
+        if getattr(self, "real_fss", False) and (callee == "find_stuff_sequence" or callee.endswith("::find_stuff_sequence")):
+            cands = [b[-1] for k, b in self.m.bodies.items() if k == "find_stuff_sequence" or k.endswith("::find_stuff_sequence")]
+            if len(cands) != 1:
+                raise Unsupported("cannot resolve find_stuff_sequence (%d candidates)" % len(cands))
+            return cands[0]
         m = re.match(r"^<(EncoderState|DecoderState) as Default>::default$", callee)
         if m:
             mod_ = "encoder::" if m.group(1) == "EncoderState" else "decoder::"
